@@ -93,13 +93,13 @@ def run(chk):
     #    explores directed continuations (only the would-be winner's election timer fires); the verdict is a
     #    Raft invariant violated in a state of such a real-code continuation.
     variables = T.extract_vars(text)
-    wplans = [(3, 2, 1, 3, 300)] if quick else [(3, 2, 1, 16, 700), (5, 2, 2, 4, 600), (2, 1, 0, 4, 400)]
+    wplans = [(3, 2, 1, 2, 1200)] if quick else [(3, 2, 1, 10, 2500), (5, 2, 2, 4, 1500), (2, 1, 0, 4, 600)]
     if "4" not in parts:
         wplans = []
     wstats = []
     for (n, clients, maxfail, runs, steps) in wplans:
         args = "fifo=1,clients=%d,maxfail=%d,fail=%d,buffer=3,strings=2,hotkey=1" % (clients, maxfail, 1 if maxfail else 0)
-        edges = 40000
+        edges = 7000
         out = S.drive(chk, drv, "raftkvs", n, "walk-biased", runs, steps, args=args, tag="-ahead", fanout=edges)
         cs = consts(n, clients, maxfail > 0, maxfail, 3)
         what = "raftkvs walk n=%d clients=%d maxfail=%d" % (n, clients, maxfail)
